@@ -1022,6 +1022,29 @@ class Fn:
                 out += '%slet %s : %s := %s\n' % (pad, V(nm), LTYPE[dk], e)
             return out + self.seq(rest, k_final, ind)
         if k == 'BinaryOperator' and s.get('opcode') == '=' and strip(s['inner'][0]).get('kind') == 'DeclRefExpr' and \
+           (kind_of(qt(strip(s['inner'][0]))) or '') == 'p:?' and \
+           strip(s['inner'][0])['referencedDecl'].get('kind') == 'ParmVarDecl':
+            # `X = f(X, …)` / `X = c ? f(X, …) : g(X, …)` for a struct PARAMETER X and callees that return their first
+            # argument: the same as the call statement(s); anything else is rejected
+            x_ = strip(s['inner'][0])['referencedDecl']['name']
+
+            def as_stmt(e):
+                e = strip(e)
+                while e.get('kind') in ('CStyleCastExpr', 'ImplicitCastExpr', 'ParenExpr'):
+                    e = strip(e['inner'][0])
+                if e.get('kind') == 'ConditionalOperator':
+                    c_, a_, b_ = e['inner']
+                    return dict(kind='IfStmt', inner=[c_, dict(kind='CompoundStmt', inner=[as_stmt(a_)]),
+                                                       dict(kind='CompoundStmt', inner=[as_stmt(b_)])])
+                if e.get('kind') == 'CallExpr':
+                    a0 = strip(e['inner'][1])
+                    while a0.get('kind') in ('CStyleCastExpr', 'ImplicitCastExpr', 'ParenExpr'):
+                        a0 = strip(a0['inner'][0])
+                    if a0.get('kind') == 'DeclRefExpr' and a0['referencedDecl']['name'] == x_:
+                        return e
+                raise CTransError('%s: assignment to the struct parameter %s' % (self.name, x_))
+            return self.seq([as_stmt(s['inner'][1])] + rest, k_final, ind)
+        if k == 'BinaryOperator' and s.get('opcode') == '=' and strip(s['inner'][0]).get('kind') == 'DeclRefExpr' and \
            (kind_of(qt(strip(s['inner'][0]))) or '') == 'p:?':
             nm_ = strip(s['inner'][0])['referencedDecl']['name']
             if (nm_ not in self.malias or self.malias[nm_][0] == nm_) and strip(s['inner'][0])['referencedDecl'].get('kind') == 'VarDecl' \
@@ -1083,6 +1106,25 @@ class Fn:
                 nm_ = self.retlocal
                 return pad + '((0 : Int), %s%s, %s, %s)' % (outs_, V('mem_' + nm_), V(nm_ + '_nrows'), V(nm_ + '_ncols'))
             raise CTransError('%s: unsupported return of a pointer' % self.name)
+        if k == 'ReturnStmt' and self.void_outs is not None and s.get('inner') and not self.loops and \
+           (kind_of(qt(strip(s['inner'][0]))) or '') == 'p:?' and strip(s['inner'][0]).get('kind') in ('CallExpr', 'ConditionalOperator'):
+            # `return f(C, …);` / `return c ? f(C, …) : g(C, …);` for callees that return their destination argument
+            e_ = strip(s['inner'][0])
+            def first_arg(e):
+                e = strip(e)
+                while e.get('kind') in ('CStyleCastExpr', 'ImplicitCastExpr', 'ParenExpr'):
+                    e = strip(e['inner'][0])
+                if e.get('kind') == 'ConditionalOperator':
+                    return first_arg(e['inner'][1])
+                a0 = strip(e['inner'][1])
+                while a0.get('kind') in ('CStyleCastExpr', 'ImplicitCastExpr', 'ParenExpr'):
+                    a0 = strip(a0['inner'][0])
+                return a0
+            a0 = first_arg(e_)
+            if a0.get('kind') != 'DeclRefExpr':
+                raise CTransError('%s: return of a call whose destination is not a variable' % self.name)
+            asg = dict(kind='BinaryOperator', opcode='=', inner=[a0, e_])
+            return self.seq([asg], lambda: self.tup(self.void_outs), ind)
         if k == 'ReturnStmt' and self.void_outs is not None and s.get('inner') and not self.loops and \
            (kind_of(qt(strip(s['inner'][0]))) or '') == 'p:?':
             return pad + self.tup(self.void_outs)        # `return C;` of a function that returns its destination parameter
@@ -2130,6 +2172,12 @@ def catalogue(t):
             ext[mid_] = dict(mats=(0, 1), writes=(1,))
         F('m4ri/triangular.c', cfn, lfn, externs=ext, fuels=['(v_B_nrows).toNat + (v_B_ncols).toNat'] * 4,
           doc='regime switch + block recursion (the base kernels, the recursive calls and the product are function parameters)')
+    F('m4ri/strassen.c', 'mzd_mul', 'mzdMul', retparam='C',
+      doc='for a supplied destination: cut-off normalisation (default numeral, multiple of 64, at least 64) and the dispatch to the '
+          'squaring route when both factors are the same object; the two translated Strassen routines are called with their callees '
+          'passed through')
+    F('m4ri/strassen.c', '_mzd_addmul', 'mzdAddmulDispatch', retparam='C', doc='A == B dispatch of the accumulating product')
+    F('m4ri/strassen.c', 'mzd_addmul', 'mzdAddmul', retparam='C', doc='for a supplied destination')
     F('m4ri/triangular.c', 'mzd_trtri_upper', 'trtriUpperRec', retparam='U',
       externs={'mzd_trtri_upper_russian': dict(mats=(0,), writes=(0,)), 'mzd_trtri_upper': dict(mats=(0,), writes=(0,))},
       doc='inversion of an upper triangular matrix: regime switch on nrows*ncols vs 2*L3 (size_t arithmetic), split, the two '
